@@ -192,6 +192,7 @@ def c12(tier):
         run_s2c(rep, "MC_Binary", bin_cfg(spec="Spec", keys="KFull", look="LFull", vals="V3", maxlive=6,
                                           inv=BIN12 + ["EmitSt"], emit=""), R, simulate=dict(num=12000, depth=18))
     need(rep, ["last:set-refused", "last:delsub", "last:del", "has-kv", "has-branch", "has-leaf"])
+    binary_traces(rep, tier, {"C12"})
     return rep.finish()
 
 
@@ -454,3 +455,22 @@ def smt_traces(rep, tier, owners):
                 counts[key] = counts.get(key, 0) + 1
     rep.cov.setdefault("trace_event_counts", {}).update(counts)
     rep.cov["trace_key_sizes"] = sizes
+
+
+def binary_traces(rep, tier, owners):
+    """code -> spec for C12: generated histories of the real binary trie on arbitrary byte keys"""
+    import random
+
+    from . import binary_driver as bd
+    from .common import import_repo, seed
+
+    mod = import_repo()
+    rng = random.Random(seed() * 977 + 3)
+    traces = [bd.gen_trace(mod, rng) for _ in range(150 if tier == "quick" else 3000)]
+    pipeline.code_to_spec(rep, "Trace_Binary", "Trace_Binary.cfg", traces, consts=("TraceConsts_Binary", bd.consts),
+                          owners=owners, batches=8 if tier == "quick" else 16)
+    counts = rep.cov.setdefault("trace_event_counts", {})
+    for t in traces:
+        for e in t["ev"]:
+            key = e["a"] + ("" if e["ok"] is True else "!refused")
+            counts[key] = counts.get(key, 0) + 1
